@@ -10,6 +10,7 @@ Variable bld : build.
 Variable P : program.
 Variable reenter : N -> state -> rres.
 Variable start : N -> Prop.
+Variable OKA : abort -> Prop.
 
 Notation ipok := (ipok P start).
 Notation vm_inv0 := (vm_inv0 P start).
@@ -18,7 +19,12 @@ Notation ninv := (ninv P start).
 Notation res_ok := (res_ok P start).
 
 Hypothesis Hcode : code_ok P start.
-Hypothesis Hre : reenter_ok P reenter start.
+Hypothesis Hre : reenter_ok P reenter start OKA.
+
+(* an instruction result is fine when it is not an abort, or an acceptable one *)
+Definition stop_ok (r : sres) : Prop := match r with SStop a _ => OKA a | _ => True end.
+Lemma no_stop_stop_ok r : no_stop r -> stop_ok r.
+Proof. destruct r; cbn; tauto. Qed.
 
 (* the conditions on one instruction that are not structural:
    the heap is acyclic (A-37) and holds no native function value that calls back; ForEach in a Debug build finds
@@ -56,11 +62,11 @@ Qed.
 
 (* ---- natives at the instruction level ---- *)
 Lemma native_step_full h ip s : ninv s -> ipok ip -> (0 < code_len P)%N ->
-  no_stop (native_step F P reenter h ip s) /\ res_ok s (native_step F P reenter h ip s).
+  stop_ok (native_step F P reenter h ip s) /\ res_ok s (native_step F P reenter h ip s).
 Proof.
   intros Hn Hip Hl. unfold native_step.
-  pose proof (call_native_ok0 F P reenter start Hcode Hre Hl h s Hn) as H.
-  destruct (call_native F P reenter h s) as [v s1|e s1|]; cbn [nres_ok0] in H; [| |contradiction].
+  pose proof (call_native_ok0 F P reenter start OKA Hcode Hre Hl h s Hn) as H.
+  destruct (call_native F P reenter h s) as [v s1|e s1|]; cbn [nres_ok0] in H; [| |split; [exact H | exact I]].
   - destruct H as ([I1 Hc1] & Hlen & _). split; [exact I|].
     cbn [C04VmProofs5.res_ok]. split; [split; [exact I1 | exact Hlen] | split; [exact Hc1 | exact Hip]].
   - destruct H as ([I1 Hc1] & Hlen). split; [exact I|]. cbn [C04VmProofs5.res_ok]. split; [exact I1 | exact Hlen].
@@ -88,7 +94,7 @@ Lemma next_ok k : opcode_at P ip0 = k -> ipok (ip0 + 1 + operand_len k).
 Proof. intros <-. apply (co_next P start Hcode ip0 Hs Hl). Qed.
 
 (* ---- no abort, every opcode ---- *)
-Lemma ns3_4 : opcode_at P ip0 = 4%N -> no_stop (step F bld P reenter ip0 s).
+Lemma ns3_4 : opcode_at P ip0 = 4%N -> stop_ok (step F bld P reenter ip0 s).
 Proof.
   intros Hop. pose proof Hop as Hk. step_opc Hop. unfold i_4.
   destruct (op_u32_some P (ip0 + 1)) as [h Eh].
@@ -98,14 +104,14 @@ Proof.
   pose proof (next_ok 4%N Hk) as H. exact H.
 Qed.
 
-Lemma ns3_11 : opcode_at P ip0 = 11%N -> no_stop (step F bld P reenter ip0 s).
+Lemma ns3_11 : opcode_at P ip0 = 11%N -> stop_ok (step F bld P reenter ip0 s).
 Proof.
   intros Hop. pose proof (step_pre3_step_pre2 ip0 s Hpre) as Hp2.
-  destruct (top1 s) as [| | |a] eqn:Et; try (apply (ns2_11 F bld P reenter ip0 s Hp2); [intros; congruence | exact Hop]).
+  destruct (top1 s) as [| | |a] eqn:Et; try (apply no_stop_stop_ok; apply (ns2_11 F bld P reenter ip0 s Hp2); [intros; congruence | exact Hop]).
   destruct (hget (st_heap s) a) as [o|] eqn:Ea;
-    [|apply (ns2_11 F bld P reenter ip0 s Hp2); [intros a0 h E; inversion E; subst; congruence | exact Hop]].
+    [|apply no_stop_stop_ok; apply (ns2_11 F bld P reenter ip0 s Hp2); [intros a0 h E; inversion E; subst; congruence | exact Hop]].
   destruct o as [| | |h| |];
-    try (apply (ns2_11 F bld P reenter ip0 s Hp2); [intros a0 h0 E; inversion E; subst; congruence | exact Hop]).
+    try (apply no_stop_stop_ok; apply (ns2_11 F bld P reenter ip0 s Hp2); [intros a0 h0 E; inversion E; subst; congruence | exact Hop]).
   (* a native function value *)
   pose proof Hop as Hk. step_opc Hop. unfold i_11. unfold top1 in Et.
   destruct (spop s) as [s1 fv] eqn:E1. cbn [snd] in Et. subst fv.
@@ -116,12 +122,16 @@ Proof.
   - pose proof (next_ok 11%N Hk) as H. change (operand_len 11) with 0%N in H. rewrite N.add_0_r in H. exact H.
 Qed.
 
-Theorem step_no_abort_all : forall a s', step F bld P reenter ip0 s <> SStop a s'.
+Lemma stop_ok_inv r : stop_ok r -> forall a s', r = SStop a s' -> OKA a.
+Proof. intros H a s' ->. exact H. Qed.
+
+Theorem step_no_abort_all : forall a s', step F bld P reenter ip0 s = SStop a s' -> OKA a.
 Proof.
   destruct (co_opcode P start Hcode ip0 Hs Hl) as [Hop _].
-  destruct (N.eq_dec (opcode_at P ip0) 4) as [E4|N4]; [apply no_stop_neq; apply ns3_4; exact E4|].
-  destruct (N.eq_dec (opcode_at P ip0) 11) as [E11|N11]; [apply no_stop_neq; apply ns3_11; exact E11|].
-  apply step_no_abort_no_native; [apply step_pre3_step_pre2; exact Hpre | exact Hop | exact N4 | intros E; congruence].
+  destruct (N.eq_dec (opcode_at P ip0) 4) as [E4|N4]; [apply stop_ok_inv; apply ns3_4; exact E4|].
+  destruct (N.eq_dec (opcode_at P ip0) 11) as [E11|N11]; [apply stop_ok_inv; apply ns3_11; exact E11|].
+  intros a s' E. exfalso.
+  apply (step_no_abort_no_native F bld P reenter ip0 s (step_pre3_step_pre2 ip0 s Hpre) Hop N4 ltac:(intros E'; congruence) a s' E).
 Qed.
 
 (* ---- preservation, every opcode ---- *)
@@ -216,7 +226,7 @@ Hypothesis re_paid : forall ip s, rres_R paid (cr s) (reenter ip s).
 Theorem loop_no_abort : forall fuel ip s,
   vm_inv s -> ipok ip -> sides_hold ip s -> (st_rem s <= N.of_nat fuel)%N ->
   match loop F bld P reenter fuel ip s with
-  | RStop _ _ => False
+  | RStop a _ => OKA a
   | ROk s' | RErr _ _ s' => vm_inv0 s' /\ length (st_heap s) <= length (st_heap s')
   end.
 Proof.
@@ -244,7 +254,7 @@ Proof.
       destruct (loop F bld P reenter f ip' s'); try exact IH; (split; [apply IH|]; destruct IH as [_ IH]; cbn in Hl'; lia).
     + destruct Hpv as [I' Hl']. split; [exact I' | exact Hl'].
     + destruct Hpv as [I' Hl']. split; [exact I' | exact Hl'].
-    + exfalso. eapply Hns; reflexivity.
+    + eapply Hns; reflexivity.
 Qed.
 
 End Final.
@@ -269,7 +279,7 @@ Qed.
    dispatches meets [side] (acyclic heap, ...). *)
 Theorem run_no_abort : forall F bld P start budget s,
   code_ok P start ->
-  reenter_ok P (run_at F bld P false (N.of_nat budget) 129) start ->
+  reenter_ok P (run_at F bld P false (N.of_nat budget) 129) start (fun _ => False) ->
   vm_inv0 P start s ->
   (forall s1, push_frame s (mkFrame 0 0 0 None) = Some s1 ->
      sides_hold F bld P (run_at F bld P false (N.of_nat budget) 129) 0 (set_rem s1 (N.of_nat budget))) ->
@@ -282,7 +292,7 @@ Proof.
     split; [apply (co_zero P start Hcode) | intros ca Eca; discriminate]. }
   destruct (inv_push_frame P start _ _ _ E1 Hi Hf) as (I1 & Hh1 & Hc1 & _).
   change max_depth with (S 129). cbn [run_at]. unfold run_loop.
-  pose proof (loop_no_abort F bld P (run_at F bld P false (N.of_nat budget) 129) start Hcode Hre
+  pose proof (loop_no_abort F bld P (run_at F bld P false (N.of_nat budget) 129) start (fun _ => False) Hcode Hre
                 (run_at_paid F bld P (N.of_nat budget) 129)
                 (N.to_nat (st_rem (set_rem s1 (N.of_nat budget)))) 0 (set_rem s1 (N.of_nat budget))) as H.
   destruct (loop _ _ _ _ _ _ _) as [s'|e ip' s'|ab s'].
@@ -293,4 +303,28 @@ Proof.
     + apply (co_zero P start Hcode).
     + apply Hsides. reflexivity.
     + rewrite N2Nat.id. apply N.le_refl.
+Qed.
+
+(* ---- the statements for the VM itself: no abort at all is acceptable ---- *)
+Definition no_abort_ok : abort -> Prop := fun _ => False.
+
+Theorem step_no_abort_strict : forall F bld P reenter start,
+  code_ok P start -> reenter_ok P reenter start no_abort_ok ->
+  forall ip0 s, step_pre3 F bld P start ip0 s ->
+  forall a s', step F bld P reenter ip0 s <> SStop a s'.
+Proof. intros F bld P reenter start Hc Hre ip0 s Hpre a s' E. exact (step_no_abort_all F bld P reenter start no_abort_ok Hc Hre ip0 s Hpre a s' E). Qed.
+
+Theorem loop_no_abort_strict : forall F bld P reenter start,
+  code_ok P start -> reenter_ok P reenter start no_abort_ok ->
+  (forall ip s, rres_R paid (cr s) (reenter ip s)) ->
+  forall fuel ip s,
+    vm_inv P start s -> ipok P start ip -> sides_hold F bld P reenter ip s -> (st_rem s <= N.of_nat fuel)%N ->
+    match loop F bld P reenter fuel ip s with
+    | RStop _ _ => False
+    | ROk s' | RErr _ _ s' => vm_inv0 P start s' /\ length (st_heap s) <= length (st_heap s')
+    end.
+Proof.
+  intros F bld P reenter start Hc Hre Hp fuel ip s Hi Hip Hs Hf.
+  pose proof (loop_no_abort F bld P reenter start no_abort_ok Hc Hre Hp fuel ip s Hi Hip Hs Hf) as H.
+  destruct (loop F bld P reenter fuel ip s); exact H.
 Qed.
